@@ -7,7 +7,9 @@
      yaml_load  yaml.safe_load                      : block -> yres
    and the directive class as a record [dsig] (so "every directive class" is a universally quantified parameter). *)
 From Coq Require Import List NArith ZArith Bool.
-From MV Require Import Base.PyStr Base.Res Dir.PyLines.
+From MV Require Import Base.PyStr.
+From MV Require Import Base.Res.
+From MV Require Import Dir.PyLines.
 Import ListNotations.
 Open Scope N_scope.
 
@@ -44,7 +46,7 @@ Inductive yres :=
 | Y_falsy                      (* None, {}, [], "", 0, False : `... or {}` *)
 | Y_notdict
 | Y_dict (items : list (str * str))
-| Y_raise (e : exn).           (* any other exception: not caught *)
+| Y_raise (e : exn).           (* any other exception *)
 
 (* Python dicts as association lists in insertion order *)
 Fixpoint dict_set {V} (d : list (str * V)) (k : str) (v : V) : list (str * V) :=
@@ -152,7 +154,7 @@ Definition parse_directive_options (content : str) (sg : dsig) (as_yaml : bool) 
   let has_options_block := match options_block with Some _ => true | None => false end in
   if as_yaml then
     match yaml_load (match options_block with Some b => b | None => [] end) with
-    | Y_raise e => Raise e
+    | Y_raise _     (* `except Exception:` (commit 22b9d98): every failure of the loader is reported *)
     | Y_error => Ok {| o_content := content_lines; o_options := []; o_warnings := [W_yaml_bad line];
                        o_has_options := has_options_block |}
     | Y_falsy => Ok {| o_content := content_lines; o_options := []; o_warnings := [];
